@@ -4,6 +4,7 @@ Props/C07.lean — replies fit one UDP datagram and truncation only cuts the tai
 import ChitchatModel.Lemmas.Serializer
 import ChitchatModel.Lemmas.Sender
 import ChitchatModel.Model.Chitchat
+import ChitchatModel.Lemmas.Emit
 namespace Chitchat
 open ClusterState NodeState
 
@@ -49,6 +50,65 @@ theorem mem_staleNodes {cs : ClusterState} {digest : Digest} {sched : List Id} {
     · rename_i d hd'
       exact key _ _ (hd (p.1, d) (AL.mem_of_lookup hd')) hsn
     · exact key 0 0 (by unfold two64; omega) hsn
+
+/-- What `staleNodes` selects: a member with a copy here, not quarantined, whose copy is ahead of
+what the digest claims, with the start version `senderFrom` decides. -/
+theorem staleNodes_spec {cs : ClusterState} {digest : Digest} {sched : List Id} {sn : StaleNode}
+    (h : sn ∈ staleNodes cs digest sched) :
+    (sn.id, sn.state) ∈ cs.nodes ∧ sched.contains sn.id = false ∧
+    ∃ dGc dMax, ((∃ d, AL.lookup sn.id digest = some d ∧ d.lastGc = dGc ∧ d.maxVersion = dMax) ∨
+                 (AL.lookup sn.id digest = none ∧ dGc = 0 ∧ dMax = 0)) ∧
+      sn.fromExcl = senderFrom sn.state dGc dMax ∧ sn.fromExcl < sn.state.maxVersion := by
+  unfold staleNodes at h
+  rw [List.mem_filterMap] at h
+  obtain ⟨p, hp, hsn⟩ := h
+  split at hsn
+  · cases hsn
+  · rename_i hsched
+    have key : ∀ dGc dMax, staleNodeOf p.1 p.2 dGc dMax = some sn →
+        sn.id = p.1 ∧ sn.state = p.2 ∧ sn.fromExcl = senderFrom p.2 dGc dMax ∧
+          sn.fromExcl < p.2.maxVersion := by
+      intro dGc dMax hs
+      simp only [staleNodeOf] at hs
+      split at hs
+      · cases hs
+      · split at hs
+        · cases hs
+        · rename_i h2
+          injection hs with hs; subst hs
+          exact ⟨rfl, rfl, rfl, by simp only; omega⟩
+    have hsched' : sched.contains p.1 = false := by simpa using hsched
+    split at hsn
+    · rename_i d hd
+      obtain ⟨h1, h2, h3, h4⟩ := key _ _ hsn
+      rw [h1, h2]
+      exact ⟨hp, hsched', d.lastGc, d.maxVersion, Or.inl ⟨d, hd, rfl, rfl⟩, h3, h4⟩
+    · rename_i hd
+      obtain ⟨h1, h2, h3, h4⟩ := key 0 0 hsn
+      rw [h1, h2]
+      exact ⟨hp, hsched', 0, 0, Or.inr ⟨hd, rfl, rfl⟩, h3, h4⟩
+
+/-- **C07 (content of a delta).** Whatever the byte budget, the compressor and the shuffle order
+did: every node delta in the result of `compute_partial_delta_respecting_mtu` is about a member
+that has a copy here and is not quarantined, starts at the version `senderFrom` decides from the
+peer's digest entry (0 = reset), and consists of the copy's watermark plus the first `n` stale
+key-values in increasing version order for some `n` — and carries the copy's max version only when
+there was no key-value to send at all. In particular a truncated delta never skips a key-value,
+never invents one and never announces a max version it did not deliver up to. -/
+theorem C07_content (C : Compressor) (cs : ClusterState) (digest : Digest) (mtu : Nat)
+    (sched order : List Id) (delta : Delta)
+    (h : computeDelta C cs digest mtu sched order = .ok delta) :
+    ∀ p ∈ delta.nodeDeltas, ∃ s, (p.1, s) ∈ cs.nodes ∧ sched.contains p.1 = false ∧
+      ∃ dGc dMax, ((∃ d, AL.lookup p.1 digest = some d ∧ d.lastGc = dGc ∧ d.maxVersion = dMax) ∨
+                   (AL.lookup p.1 digest = none ∧ dGc = 0 ∧ dMax = 0)) ∧
+        senderFrom s dGc dMax < s.maxVersion ∧
+        ∃ (n : Nat) (setMax : Bool), p.2 = senderNodeDelta s (senderFrom s dGc dMax) n setMax := by
+  intro p hp
+  obtain ⟨sn, hsn, hid, n, b, hshape⟩ := computeDelta_shape C cs digest mtu sched order delta h p hp
+  obtain ⟨hmem, hsched, dGc, dMax, hdig, hfrom, hlt⟩ := staleNodes_spec hsn
+  rw [hid] at hmem hsched hdig
+  refine ⟨sn.state, hmem, hsched, dGc, dMax, hdig, by rw [← hfrom]; exact hlt, n, b, ?_⟩
+  rw [← hfrom]; exact hshape
 
 /-- **C07 (delta size, partial).** For every sound compressor, every peer digest, every set of
 members scheduled for deletion and every tie order: if every op the state can contribute fits one
